@@ -5,6 +5,7 @@ import xarray as xr
 import common as C
 import gen as G
 import verde as vd
+from props import large as L
 
 ID = "C18"
 TRANSLATED = "makegrid"    # Gen/Grid.lean (grid_to_table, Dataset branch) and Gen/MakeGrid.lean (make_xarray_grid, meshgrid_to_1d, check_extra_coords_names) are regenerated from /repo and bridged to the model in Props/C18.lean
@@ -58,6 +59,12 @@ def mk_table(dims, east, north, extras, vars_, form, coord_order, kind):
 
 
 def corpus():
+    return _corpus() + [L.case("big_table", [1025, 1031, True], "corpus-large-grid"),
+                       L.case("big_table", [700, 1500, False], "corpus-large-grid"),
+                       L.case("table_independent", [4, 5, "dataset"], "corpus-table-is-a-value"), L.case("table_independent", [3, 7, "dataarray"], "corpus-table-is-a-value")]
+
+
+def _corpus():
     e, n = [1.0, 2.0, 4.0], [10.0, 20.0]
     E, N = mesh(e, n)
     d = [[0.0, 1.0, 2.0], [3.0, 4.0, 5.0]]
@@ -235,6 +242,9 @@ def _A(x, role, case):
 
 
 def impl(case):
+    if case["fn"] == "large":
+        r = C.call(L.run, case["args"])
+        return r if C.is_err(r) else ["large", r]
     a = case["args"]
     fn = case["fn"]
     if fn in ("make_grid", "make_grid_table"):
@@ -305,7 +315,26 @@ def impl(case):
                 if k not in t.columns or not np.array_equal(np.asarray(t[k].values), v.ravel()):
                     return ["err", f"NonNumericVariableLost:{k}"]
             t = t.drop(columns=list(extra_vars))
-        return t if C.is_err(t) else _table_out(t)
+        if C.is_err(t):
+            return t
+        out = _table_out(t)
+        # the table is a value of its own: editing the grid afterwards does not reach into it, editing the table does not reach into the grid
+        names_ = [g.name] if isinstance(g, xr.DataArray) else list(g.data_vars)
+        for k in names_:
+            v = (g if isinstance(g, xr.DataArray) else g[k]).values
+            if v.flags.writeable and v.dtype.kind == "f":
+                v[...] = v * 3.0 + 1000.0
+        if _table_out(t) != out:
+            return ["err", "TableSharesMemoryWithGrid"]
+        before = [(g if isinstance(g, xr.DataArray) else g[k]).values.copy() for k in names_]
+        for c in t.columns:
+            col = t[c].to_numpy()
+            if col.flags.writeable and col.dtype.kind == "f":
+                col[...] = -12345.5
+        after = [(g if isinstance(g, xr.DataArray) else g[k]).values for k in names_]
+        if not all(np.array_equal(b, a_, equal_nan=True) for b, a_ in zip(before, after)):
+            return ["err", "TableSharesMemoryWithGrid"]
+        return out
     if fn == "to1d":
         E, N, extras = a
         r = C.call(vd.utils.meshgrid_to_1d, tuple(_A(x, f"m{i}", case) for i, x in enumerate([E, N] + list(extras))))
@@ -322,6 +351,8 @@ def impl(case):
 
 
 def compare(case, io, mo):
+    if case["fn"] == "large":
+        return "diff:implementation failed: " + io[1] if C.is_err(io) else "ok"
     return C.std_compare(io, mo, tol=0.0)
 
 
@@ -330,6 +361,8 @@ def _rect(a, nn, ne):
 
 
 def oracle(case, io):
+    if case["fn"] == "large":
+        return (io[1] or None) if not C.is_err(io) else "failed on a large input: " + io[1]
     a = case["args"]
     fn = case["fn"]
     if fn in ("make_grid", "make_grid_table"):
@@ -420,6 +453,8 @@ def oracle(case, io):
 
 
 def nontrivial(case, io):
+    if case["fn"] == "large":
+        return not C.is_err(io)
     return (not C.is_err(io)) and len(C.flat(case["args"][:2])) >= 3
 
 
